@@ -169,6 +169,10 @@ func runC09(c *Ctx) {
 			pkgs = append(pkgs, pk)
 		}
 	}
+	c.Rule("R-CLOSE", "writers used by the cache store are closed on every path and report their Close error on success", 5)
+	c.Rule("ATOMIC-THROUGH-WRAPPERS", "bucket wrappers forward put options, so PutWithAtomic reaches the disk bucket through the mapped cache view", 2)
+	ruleClose(c, "R-CLOSE", pkgs, func(string) (bool, string) { return true, "" })
+	rulePutForwarding(c, "ATOMIC-THROUGH-WRAPPERS")
 	ruleDefer(c, "R-DEFER", pkgs)
 	ruleErrUse(c, "R-ERRUSE", pkgs, func(string) (bool, string) { return true, "" }, c15AllowedErrUse)
 
@@ -345,6 +349,31 @@ func runC09(c *Ctx) {
 	}
 	if nPre < 8 {
 		c.Fail("MARKER-AFTER-SUCCESS", "count", putFn.Pos(), "only %d fallible calls precede the marker write (expected ≥ 8: dir/lock paths, locks, re-reads, DepModuleKeys, Bucket, Copy, side files, MarshalYAML)", nPre)
+	}
+	// every marker (re-)read's *content* is what gets unmarshalled and validated: a re-read whose data is discarded
+	// re-validates a stale copy
+	for _, call := range callsIn(putFn) {
+		if !(isStorageFn(call.Call, "ReadPath") && len(call.Call.Args) >= 3 && isMarkerPath(call.Call.Args[2])) || call.Value == nil {
+			continue
+		}
+		var dataV ssa.Value
+		if refs := call.Value.Referrers(); refs != nil {
+			for _, r := range *refs {
+				if ex, ok := r.(*ssa.Extract); ok && ex.Index == 0 {
+					dataV = ex
+				}
+			}
+		}
+		used := false
+		if dataV != nil {
+			for _, k := range callsIn(putFn) {
+				fn := staticCalleeObj(k.Call)
+				if fn != nil && strings.HasPrefix(fn.Name(), "UnmarshalYAML") && len(k.Call.Args) > 0 && dependsOnValue(k.Call.Args[0], dataV) && instrReaches(call.Instr, k.Instr) {
+					used = true
+				}
+			}
+		}
+		c.Ob("MARKER-AFTER-SUCCESS", pf+"/marker-read-content-validated", call.Pos(), used, true, "the bytes returned by this marker read are the ones unmarshalled and validated afterwards: %v", used)
 	}
 	// the tar callback runs only when the body succeeded
 	for _, a := range putFn.AnonFuncs {
